@@ -1,7 +1,7 @@
 """Property -> units table and notes shared by all checks."""
 
 PROPS = {
-    "C02": {"units": ["U3", "U4", "U5", "U6a", "U6b", "U6c", "U7", "U2"], "min_obligations": 20,
+    "C02": {"units": ["U3", "U4", "U5", "U6a", "U6b", "U6c", "U7", "U2", "U9"], "min_obligations": 20,
             "note": "rewriting only adds instrumentation: shape/erasure/order contracts on every constructor and transform"},
     "C03": {"units": ["U3", "U4", "U5", "U7", "U2"], "min_obligations": 10,
             "note": "hook receives true result and operands in order: mirror clauses (argument list == operands left in the wrapped expression)"},
